@@ -37,7 +37,10 @@ def main():
             res['error'] = out[-300:]; print(json.dumps(res, indent=1)); return 1
         rc1, out1 = sh('/venv/bin/python %s' % os.path.join(cand, 'equiv.py'), cwd=wt, env=env, timeout=1500)
         res['equiv_rc'] = [rc0, rc1]
-        res['equiv_same_output'] = (rc0 == 0 and rc1 == 0 and out0 == out1)
+        # the harnesses print a sha1 digest of everything they observed (plus, some of them, timing / progress lines)
+        dig = lambda o: re.findall(r'\b[0-9a-f]{40}\b', o)
+        res['equiv_same_output'] = (rc0 == 0 and rc1 == 0 and (out0 == out1 or (dig(out0) and dig(out0) == dig(out1))))
+        res['digests'] = dig(out1)[-2:]
         res['equiv_tail'] = (out1.strip().splitlines() or [''])[-1][:200]
         p, s = passed(wt)
         res['tests_summary'] = s
